@@ -61,6 +61,8 @@ def r_index_key(ctx):
             why = own_index(f, t)
             if why is None and f.path.startswith('upgrade::') and upgrade_loop_index(f, t):
                 why = 'loop variable over every index 0..=65535 (per-index upgrade)'
+            if why is None and 'heed::BytesDecode' in f.path and any(s[0] == 'call' and s[1].endswith('read_u16') for s in walk(t)):
+                why = 'key decoder: the index is the one stored in the key bytes'
             if why:
                 ctx.ok(rule, key, c.loc(), why)
             else:
